@@ -144,44 +144,74 @@ func scenario(w *sim.World) {
 		// a nested-archetype resource whose inner context owns counting cells too; the
 		// inner archetype just waits on its input channel (never used by the outer
 		// program), so only its lifecycle is exercised
-		nres := resources.NewNested(func(sendCh chan<- tla.Value, receiveCh <-chan tla.Value) []*distsys.MPCalContext {
-			ic := &cell{w: w, st: st, name: "nested.inner", val: tla.MakeNumber(0), old: tla.MakeNumber(0), closeDur: closeDurs[w.Choose(sim.KCfg, len(closeDurs))]}
-			nestedInner = append(nestedInner, ic)
-			in := resources.NewInputChan(receiveCh, resources.WithInputChanReadTimeout(50*time.Millisecond))
-			innerArch := distsys.MPCalArchetype{
-				Name: "I", Label: "I.l0",
-				RequiredRefParams: []string{"I.in", "I.c"},
-				JumpTable: distsys.MakeMPCalJumpTable(
-					distsys.MPCalCriticalSection{Name: "I.l0", Body: func(iface distsys.ArchetypeInterface) error {
-						in, err := iface.RequireArchetypeResourceRef("I.in")
-						if err != nil {
-							return err
-						}
-						c, err := iface.RequireArchetypeResourceRef("I.c")
-						if err != nil {
-							return err
-						}
-						if _, err := iface.Read(c, nil); err != nil {
-							return err
-						}
-						if _, err := iface.Read(in, nil); err != nil {
-							return err
-						}
-						return iface.Goto("I.l0")
-					}},
-				),
-				ProcTable: distsys.MakeMPCalProcTable(),
-				PreAmble:  func(distsys.ArchetypeInterface) {},
+		nInner := 1 + w.Choose(sim.KCfg, 3)
+		endsAfter := make([]int, nInner) // 0 = runs until stopped; n = ends on its own after n attempts
+		for k := range endsAfter {
+			if w.Choose(sim.KCfg, 3) == 1 {
+				endsAfter[k] = 1 + w.Choose(sim.KCfg, 3)
 			}
-			ictx := distsys.NewMPCalContext(tla.MakeString("inner"), innerArch,
-				distsys.EnsureArchetypeRefParam("in", in),
-				distsys.EnsureArchetypeRefParam("c", ic))
-			return []*distsys.MPCalContext{ictx}
+		}
+		nres := resources.NewNested(func(sendCh chan<- tla.Value, receiveCh <-chan tla.Value) []*distsys.MPCalContext {
+			var ctxs []*distsys.MPCalContext
+			for k := 0; k < nInner; k++ {
+				k := k
+				// inner cells belong to other contexts: the "no commit after Stop returned" rule is about
+				// the stopped (outer) context only; inner cells are still checked against their own Close
+				ic := &cell{w: w, st: &state{w: w}, name: fmt.Sprintf("nested.inner%d", k), val: tla.MakeNumber(0), old: tla.MakeNumber(0), closeDur: closeDurs[w.Choose(sim.KCfg, len(closeDurs))]}
+				ic.pace = 10 * time.Millisecond
+				nestedInner = append(nestedInner, ic)
+				in := resources.NewInputChan(receiveCh, resources.WithInputChanReadTimeout(50*time.Millisecond))
+				att := 0
+				innerArch := distsys.MPCalArchetype{
+					Name: "I", Label: "I.l0",
+					RequiredRefParams: []string{"I.in", "I.c"},
+					JumpTable: distsys.MakeMPCalJumpTable(
+						distsys.MPCalCriticalSection{Name: "I.l0", Body: func(iface distsys.ArchetypeInterface) error {
+							in, err := iface.RequireArchetypeResourceRef("I.in")
+							if err != nil {
+								return err
+							}
+							c, err := iface.RequireArchetypeResourceRef("I.c")
+							if err != nil {
+								return err
+							}
+							if _, err := iface.Read(c, nil); err != nil {
+								return err
+							}
+							att++
+							if endsAfter[k] > 0 && att >= endsAfter[k] {
+								w.Probe("nested_context_ended_on_its_own")
+								return iface.Goto("I.Done")
+							}
+							if k == 0 {
+								if _, err := iface.Read(in, nil); err != nil {
+									return err
+								}
+							} else {
+								return distsys.ErrCriticalSectionAborted
+							}
+							return iface.Goto("I.l0")
+						}},
+						distsys.MPCalCriticalSection{Name: "I.Done", Body: func(distsys.ArchetypeInterface) error { return distsys.ErrDone }},
+					),
+					ProcTable: distsys.MakeMPCalProcTable(),
+					PreAmble:  func(distsys.ArchetypeInterface) {},
+				}
+				ctxs = append(ctxs, distsys.NewMPCalContext(tla.MakeString(fmt.Sprintf("inner%d", k)), innerArch,
+					distsys.EnsureArchetypeRefParam("in", in),
+					distsys.EnsureArchetypeRefParam("c", ic)))
+			}
+			if nInner >= 2 {
+				w.Probe("nested_two_or_more_contexts")
+			}
+			return ctxs
 		})
 		cfgs = append(cfgs, distsys.EnsureArchetypeRefParam("n", nres))
 	}
 
 	// the program
+	failureProduced := false   // a section body returned the program's assertion/resource error
+	reachedErrorLabel := false // a section jumping to the Error label was executed (it may still be pre-empted before Error runs)
 	bodyRan := 0
 	var sections []distsys.MPCalCriticalSection
 	for l := 0; l < nLabels; l++ {
@@ -216,6 +246,9 @@ func scenario(w *sim.World) {
 				}
 				v, err := iface.Read(h, nil)
 				if err != nil {
+					if errors.Is(err, errResource) {
+						failureProduced = true
+					}
 					return err
 				}
 				if err := iface.Write(h, nil, tla.MakeNumber(v.AsNumber()+1)); err != nil {
@@ -237,7 +270,11 @@ func scenario(w *sim.World) {
 				}
 			}
 			if ending == endAssert && l == failAt {
+				failureProduced = true
 				return fmt.Errorf("%w: injected", distsys.ErrAssertionFailed)
+			}
+			if next == "A.Error" {
+				reachedErrorLabel = true
 			}
 			return iface.Goto(next)
 		}})
@@ -405,6 +442,7 @@ func scenario(w *sim.World) {
 		}
 	}
 	_ = stoppedBeforeRun
+	_ = reachedErrorLabel
 	// result classification
 	stoppedEarly := false
 	for _, s := range stoppers {
@@ -427,7 +465,11 @@ func scenario(w *sim.World) {
 		}
 	case runErr == nil:
 		// normal termination or stopped: legal for done/loop always; for the failing
-		// endings only if a Stop could have pre-empted the failing label
+		// endings only if a Stop pre-empted the run before the failing section executed.
+		// Once a section has produced the error, Run must report it whatever Stop does.
+		if failureProduced {
+			w.Fail("failure_masked", "a critical section failed (%s) but Run returned nil (Stop called: %v)", endNames[ending], stoppedEarly)
+		}
 		if (ending == endAssert || ending == endErrorLabel || ending == endResErr) && !stoppedEarly {
 			w.Fail("wrong_result", "Run returned nil although the program ends with %s and nobody called Stop", endNames[ending])
 		}
